@@ -216,9 +216,12 @@ def generation_order(ctx: Ctx):
         arg = fn.params[1]
         ps = [p for p in flow.paths(fn.node) if p.kind == "return"]
         ok = len(ps) == 1 and isinstance(ps[0].value, ast.Call) and any(
-            k.arg == "instruction_generator_order" and flow.dump(k.value) == f"tuple((i_gen.name for i_gen in {arg}))" for k in ps[0].value.keywords)
-        ctx.check(ok, "D3", "ORD.generation", f"{qn}: order = order of the given generators, stored as a tuple", fn,
-                  why_bad="instruction_generator_order is not tuple(names in the given order)", construct=f"{qn}:order")
+            k.arg == "instruction_generator_order" and flow.dump(k.value) in (f"tuple((i_gen.name for i_gen in {arg}))", f"(i_gen.name for i_gen in {arg})",
+                                                                               f"tuple([i_gen.name for i_gen in {arg}])", f"[i_gen.name for i_gen in {arg}]")
+            for k in ps[0].value.keywords)
+        # (that the order is stored as an immutable tuple and not as a one-shot iterator is C16's clause)
+        ctx.check(ok, "D3", "ORD.generation", f"{qn}: order = names of the given generators in the given order", fn,
+                  why_bad="instruction_generator_order is not the names in the given order", construct=f"{qn}:order")
 
 
 def step_phases(ctx: Ctx, generators_must_see_driver_updates: bool = False):
@@ -271,7 +274,7 @@ def selftest():
           "    result = ft.reduce(\n        lambda acc, gen: acc.apply_instruction_generator(gen, simulation_state, environment),\n        instruction_generators,\n        InstructionGenerationResult().add_driver_instructions(simulation_state, environment),\n    )", rule="ORD.generation"),
         V("twin-generators-see-older-state", SS, "            self.ordered_instruction_generators, sim_with_drivers_updated, env", "            self.ordered_instruction_generators, simulation_state, env", kind="twin"),
         V("transition-returns-exit-state-on-reject", "nrel/hive/state/entity_state/entity_state_ops.py", "        elif not enter_sim:\n            return None, None", "        elif not enter_sim:\n            return None, exit_sim", rule="TS.transition"),
-        V("order-as-generator", SS, "            instruction_generator_order=tuple(i_gen.name for i_gen in updated_i_gens),", "            instruction_generator_order=(i_gen.name for i_gen in updated_i_gens),", rule="ORD.generation"),
+        V("order-reversed", SS, "            instruction_generator_order=tuple(i_gen.name for i_gen in updated_i_gens),", "            instruction_generator_order=tuple(i_gen.name for i_gen in reversed(updated_i_gens)),", rule="ORD.generation"),
         V("reserve-exit-leaks-state", "nrel/hive/state/vehicle_state/reserve_base.py", "            elif updated_base is None:\n                return None, None\n            return simulation_state_ops.modify_base(sim, updated_base)",
           "            elif updated_base is None:\n                return None, None\n            return simulation_state_ops.modify_base(sim, updated_base)\n", kind="twin"),
         V("twin-zip", SSO, "        update_error, updated_sim = result\n", "        (update_error, updated_sim) = result\n", kind="twin"),
